@@ -66,6 +66,15 @@ def programs(tier):
         B.add(call_step([shp[c]], "sumprod"))
         B.add(call_step([shp[b], shp[c], shp[a]], "reverse"))
         progs.append(B.build())
+    # a decorated call whose body raises (the program catches it) leaves nothing behind: the decorated calls after it are ordinary
+    for k, (a, b) in enumerate((("int", "float"), ("list_if", "int"), ("bool", "bool"))):
+        for bad in ("raise", "assert"):
+            B = gen.Builder("snark/afterexc/%s/%d" % (bad, k), "plain", None, {"op": "afterexc", "kinds": "%s|%s" % (a, b)})
+            inner = [{"op": "raise"}] if bad == "raise" else [{"op": "new", "kind": "priv", "ty": "int", "v": 3}, {"op": "meth", "name": "assert_zero", "a": {"r": 2}}]
+            B.add({"op": "try", "body": [{"op": "snark", "args": [shp[a]], "body": {"steps": inner, "ret": "args", "how": "identity"}}]})
+            B.add(call_step([shp[b]], "identity"))
+            B.add(call_step([shp[a], shp[b]], "sumprod"))
+            progs.append(B.build())
     # keyword arguments
     for a in ("int", "float", "list_if"):
         B = gen.Builder("snark/kw/%s" % a, "plain", None, {"op": "kw", "kinds": a})
@@ -85,7 +94,13 @@ def calls_of(tr, prog):
     out = []
     evs = tr["events"]
     i = 0
-    kws = [bool(s.get("kw")) for s in prog["steps"] if s["op"] == "snark"]
+    def snarks(steps):
+        for s in steps:
+            if s["op"] == "snark":
+                yield s
+            elif isinstance(s.get("body"), list):
+                yield from snarks(s["body"])           # decorated calls inside try blocks
+    kws = [bool(s.get("kw")) for s in snarks(prog["steps"])]
     k = 0
     while i < len(evs):
         if evs[i]["op"] == "snark_enter":
